@@ -155,10 +155,10 @@ func enumerate(alphabet []string, maxLen int, grammar string, shards int) int64 
 }
 
 func TestTokenSequences(t *testing.T) {
-	shards := 4
+	shards := fw.NShards()
 	el, ll := 3, 4
 	if fw.Thorough() {
-		shards, el, ll = 16, 4, 6
+		el, ll = 4, 6
 	}
 	n1 := enumerate(exprAlphabet, el, "expr", shards)
 	n2 := enumerate(lrAlphabet, ll, "leafref", shards)
